@@ -67,6 +67,21 @@ def expected(line, impl):
         T, n, d, src, rlen = t[1], int(t[2]), int(t[3]), hexbytes(t[4]), int(t[5])
         known = T == "DOUBLE_INT" and (n >= 2 or (d >= 1 and n >= 1))
         return ["0", layout(T, n, d, src, rlen)], known
+    if c in ("gathervx", "allgathervx", "gatherx", "allgatherx", "alltoallx"):
+        # different send and receive types of equal total length (types without padding): the bytes land at
+        # displ * extent (RECEIVE type).  MPI guarantees this only for equal type signatures (k x 2INT = 2k x INT).
+        TS, ns, TR, nr = t[1], int(t[2]), t[3], int(t[4])
+        if c.endswith("vx"):
+            d, src, rlen = int(t[5]), hexbytes(t[6]), int(t[7])
+        else:
+            d, src, rlen = 0, hexbytes(t[5]), int(t[6])
+        if impl == "mpi" and {TS, TR} != {"INT", "2INT"} and TS != TR:
+            return [None, None], False
+        out = [SENT] * rlen
+        for j in range(ns * TYPES[TS][0]):
+            if d * TYPES[TR][1] + j < rlen:
+                out[d * TYPES[TR][1] + j] = src[j]
+        return ["0", out], False
     if c in ("reduce", "allreduce", "reduce_scatter_block", "scan"):
         T, n, src, rlen = t[2], int(t[3]), hexbytes(t[4]), int(t[5])
         known = T == "DOUBLE_INT" and n >= 2
@@ -193,6 +208,16 @@ def gen_cases(ctx):
                 for d in (0, 1, 2, 5):
                     c = rng.choice(["gatherv", "allgatherv"])
                     cases.append("%s %s %d %d %s %d" % (c, T, n, d, rnd_hex(rng, n * ext), (d + n) * ext + rng.choice([0, 1, ext])))
+                # send and receive types of different size, same total length (no padded type)
+                if T != "DOUBLE_INT" and n > 0:
+                    for TR, (rs, rext) in TYPES.items():
+                        if TR != "DOUBLE_INT" and rs != size and (n * size) % rs == 0 and rng.random() < (0.6 if {T, TR} == {"INT", "2INT"} else 0.12):
+                            nr = n * size // rs
+                            d = rng.choice([0, 1, 2, 3])
+                            c = rng.choice(["gathervx", "allgathervx"])
+                            cases.append("%s %s %d %s %d %d %s %d" % (c, T, n, TR, nr, d, rnd_hex(rng, n * size), (d + nr) * rs + rng.choice([0, 1, rs])))
+                            c = rng.choice(["gatherx", "allgatherx", "alltoallx"])
+                            cases.append("%s %s %d %s %d %s %d" % (c, T, n, TR, nr, rnd_hex(rng, n * size), nr * rs + rng.choice([0, 1, rs])))
                 if T in OPS:
                     for c in ("reduce", "allreduce", "reduce_scatter_block", "scan", "exscan"):
                         for o in rng.sample(OPS[T], min(2, len(OPS[T]))):
